@@ -192,7 +192,7 @@ Module Witness.
   Definition wcfg : scfg :=
     {| domain := bs "localhost"; has_mod := true; op_auth := false; op_fbp := false; op_fev := true; op_spp := false;
        proto := []; max_clients := 10; max_subs := 10; max_payload_cfg := 1000; max_inflight := 10; max_message := 1000;
-       keepalive := 60; min_keepalive := 1; max_conns := 10; pool_budget := 100000 |}.
+       keepalive := 60; min_keepalive := 1; max_conns := 10; pool_budget := 100000; max_channels := 100 |}.
   Definition m_connect := build "CONNECT" [(bs "version", VNum 1); (bs "heartbeat_interval", VNum 0)].
   Definition m_identify (u : string) := build "IDENTIFY" [(bs "username", VStr (bs u))].
   Definition m_join (i : N) (ch : string) := build "JOIN" [(bs "id", VNum i); (bs "channel", VStr (bs ch))].
